@@ -17,7 +17,7 @@ import (
 
 func VerifHandleMessage(p *Peer, m protocol.Message) error { return handleMessage(p, m) }
 func VerifHandleEvent(p *Peer, e PeerEvent) error         { return handleEvent(p, e) }
-func VerifExpireRequests(p *Peer) bool                    { return expireRequests(p) }
+func VerifExpireRequests(p *Peer) (bool, error) { return expireRequests(p) }
 func VerifMaybeRequest(p *Peer)                           { maybeRequest(p) }
 func VerifSendPex(p *Peer)                                { sendPex(p) }
 func VerifScheduleUpload(p *Peer, immediate bool) error   { return scheduleUpload(p, immediate) }
